@@ -173,22 +173,22 @@ _AS_BUILT = {
          'Principal types of whole expressions are decided per construct on a bounded universe (depth <= 2, arity <= 3), not for arbitrary nesting. Five audit findings (filter parameters skipped, recursion typed by its step, template parameters left un-instantiated by an any-typed argument, declared arguments read through stale positions) were decided by r4/r8/r9 and repaired.'),
  'C05': ('; ' + E4 + ' of the lexer base (token data) for numbers',
          ' As built: r6 ConvertTo, r7 LITERALS-REPRESENTABLE (shared C06 r9): a literal / index the token data cannot hold is refused, never wrapped into a number that prints differently.',
-         'The family is finite (quick: witness operands; thorough: all 13233 tree-grammar sentences). Not decided (audit findings, DESIGN 9.7): Greek letters inside global identifiers, transliterations that collide with ASCII keywords.'),
+         'The family is finite (quick: witness operands; thorough: all 13233 tree-grammar sentences). r8 IDENTIFIER-CLOSURE decides that every identifier the MATH lexer accepts prints to one ASCII identifier of the same kind (two audit findings repaired). Not decided: ConvertTo applied twice (arguable).'),
  'C06': ('; ' + E4 + ' of LexerBase::Stream/lex/MakeToken/ParseData and TokenData::FromIndexSequence with the scanner verdict supplied',
          ' As built: r7 lexer reset (shared C18), r8 FindMinimalNode evaluated on trees, r9 TOKEN-DATA: an integer literal or index list carries exactly the numbers written or the token is refused (found the int32/int16 wrap, repaired).',
          'Trusts bison 3.8.2 for the sync comparison only. Does not decide that RE/flex reports columns in code points, nor sentences longer than the corpus shapes.'),
  'C08': ('; TRANSLATE-ONCE call-graph rule with slots filled from the repository; MergeWith interpreted on schemas whose texts are mention sequences',
          ' As built: r6 byte vs code-point units, r7 refresh + evaluated MergeWith (every mention renamed exactly once by the complete map), r8 TRANSLATE-ONCE (single-item inserters already rename the own alias; a later complete translation requires every text stored again from the source).',
-         '"Same schema up to renaming" as data is not decided. Not decided (audit findings, DESIGN 9.7): RSAggregator keeps an inherited convention untranslated, OpRelativation finds calls by substring, _ERROR suffix on ordinary words of conventions.'),
+         '"Same schema up to renaming" as data is not decided. r9 WHOLE-IDENTIFIER (no substring search for names) and r10 INHERITED-TEXTS (sibling rule of the aggregator) decide two further audit findings (repaired). Not decided: _ERROR suffix on ordinary words of conventions (partly by design).'),
  'C09': ('; SELF-REFERENCE rule over records (member closures / own-member addresses vs memberwise copy and move); NewUID evaluated',
          ' As built: r6 generator evaluation, r7 views, r8 SELF-REFERENCE: an object whose member refers back to the object is never copied or moved memberwise (found RSCore::cstList bound to the source after a copy, repaired).',
          'Does not decide list order after arbitrary MoveBefore sequences beyond what the priority table implies.'),
  'C12': ('; MergeWith interpreted on small schemas (mention sequences); TRANSLATE-ONCE call-graph rule; admissible-table evaluation',
          ' As built: r5 is the evaluated merge (every constituent copied and recorded, every mention renamed exactly once), r6 admissible table, r7 TRANSLATE-ONCE (shared C08 r8), r8 TRANSLATION-CLOSED (duplicate elimination interpreted on schemas with chains of duplicates: every erased constituent is mapped to a survivor).',
-         'Correctness and type preservation of the resulting schema are value-level and not decided. Not decided (audit findings, DESIGN 9.7): dependency loops are prechecked per pair only; the typification comparison can throw or not terminate on inadmissible tables.'),
+         'Correctness and type preservation of the resulting schema are value-level and not decided. r9 NO-LOOP-BY-EQUATION (precheck interpreted over the real graph code) and r10 ADMISSIBILITY-TOTAL decide two further audit findings (repaired). Not decided: termination of the rewriting loop of the typification comparison.'),
  'C13': ('; graph closures of the interpreted CGraph (shared C14 r8); admissibility of a selection evaluated over all kinds',
          ' As built: r6 uses the evaluated ExpandInputs/ExpandOutputs/InputsFor/Sort, r7 selection admissibility.',
-         'Preservation of correctness status and typification of each copied constituent is value-level and not decided. Not decided (audit findings, DESIGN 9.7): renumbering can give a dangling mention a meaning; a base set with a definition bypasses the closure test (arguable). The stale-status finding (a loop created by an edit stays VERIFIED) is decided by C07 r6 and repaired.'),
+         'Preservation of correctness status and typification of each copied constituent is value-level and not decided. r8 RENUMBER-FAITHFUL (ResetAliases interpreted on schemas with gaps) decides the renumbering capture (repaired). Not decided: a base set with a definition bypasses the closure test (arguable). The stale-status finding (a loop created by an edit stays VERIFIED) is decided by C07 r6 and repaired.'),
  'C14': ('; ' + E4 + ' of all of CGraph on every graph over three items, named shapes on 4-6 items, erase/re-add/replace histories and every single further update, both visiting orders of unordered sets, against the mathematical graph',
          ' As built: r8 GRAPH-EVALUATED decides exactness of every query as data on the bounded family (membership, edges, inputs, counts, reachability incl. the diagonal, cycles, cycle groups = SCCs containing a cycle, topological order validity, closures, Sort); r1-r5, r7 recognise today\'s algorithm forms for graphs of any size and defer to r8 when the form is different but every evaluated answer is right.',
          'Exactness beyond the bounded family rests on the structural rules (only when today\'s forms are recognised). One finding (IsReachableFrom(x,x) on a longer cycle) repaired.'),
@@ -197,7 +197,7 @@ _AS_BUILT = {
          'Copy-on-write itself (use_count gate) is decided structurally (r1); the evaluation answers use_count() as shared. Two findings repaired: asymmetric lazy iterator equality (IsSubsetOrEq wrong on lazy sets), references into the evictable shared cache.'),
  'C16': ('; packer and unpacker interpreted from source on a family of typifications and values, also with the reserved count scaled into the evaluated range',
          ' As built: r3 ROUND-TRIP evaluated (sets of sets, tuples with sets, negatives, empty sets at every level); the family is evaluated again with SDCompact::unknownCount scaled to 2 and 3 because that constant lies inside the range of real cardinalities (found: a set of exactly that size did not unpack; repaired).',
-         'Hostile tables are covered by the structural guards (r2) only. Not decided (audit finding, arguable): CheckCompatible inspects only the first element of a set.'),
+         'Hostile tables are covered by the structural guards (r2) only. r4 COMPATIBLE decides CheckCompatible on heterogeneous sets (audit finding repaired).'),
  'C17': ('; ' + E4 + ' of Reference::ExtractAll (with the UTF-8 iterator and Substr), Reference::Parse, OutputRefs and ResolveAll on bounded text families; STORED-VALID who-may-store rule',
          ' As built: r7 write-back, r8 resolve-all, r9 SCAN-EVALUATED (exactly the well-formed @{...} occurrences whatever precedes them), r10 OFFSET-FAITHFUL (offset carried exactly or refused), r11 STORED-VALID (every writer of RefsManager::refs stores only references that passed IsValid()). Four findings repaired.',
          'Texts where an ill-formed balanced marker contains another marker are left open by the definition and skipped.'),
